@@ -114,6 +114,39 @@ CLAIMS = {
             'Ok(0) and the sink is unchanged (process_mode: done-is-identity); wf() is preserved by every call on every exit, and every '
             'arithmetic / index / slice operation in these functions is proved safe, so no call sequence panics.',
             'Verus function contracts (latch clauses) + data-structure invariant', '5 C16'),
+    'C07': (True,
+            'Unbounded deductive proof (Verus) of panic-freedom and termination for every decoder-side function under contract (all of '
+            'src/decode/{lzbuffer,rangecoder,util,lzma,lzma2,xz,stream}.rs except the accessors named below, src/xz/*, and the lib.rs entry points '
+            'lzma_decompress_with_options, lzma2_decompress, xz_decompress): every +,-,*,<<,>>,/,% is proved free of overflow / division by zero, '
+            'every index and slice range in bounds (window get/set, literal table row lit_state < 1<<(lc+lp), pos_decoders offset, is_match '
+            '(state<<4)+pos_state, Cursor arrays of the streaming decoder), every `unreachable` / assert! proved dead or discharged at the call '
+            'site, every loop has a verified decreases measure (symbol loop: (input length, range) lexicographic; carried-over buffer added for '
+            'the streaming mode), and the data-structure invariants wf() hold after every operation on every exit. Memory: window allocation is '
+            'proved lazy (buf.len() <= min(dict_size, bytes produced) <= memlimit, CB.new.noalloc), the literal table is 0x300 << (lc+lp) with '
+            'lc+lp <= 12 by props < 225. Defects D2 (footer overflow) and D3 (dict_size 0) were found as failing obligations and fixed. '
+            'NOT COVERED: src/error.rs conversions, Vec2D (4 assumed contracts), Stream::{new, get_output, get_output_mut}, lzma_decompress '
+            '(one-line wrapper), allocation failure itself, and stack depth.',
+            'Verus safety obligations (overflow, bounds, termination, invariants) on mechanically extracted real code', '5 C07'),
+    'C12': (True,
+            'Unbounded deductive proof (Verus) against an adversarial I/O model (ExWrite: write may accept any prefix or fail at any call, flush may '
+            'fail; ExRead: read may be short or fail at any call): decoders: every window operation leaves the sink holding a prefix of the correct '
+            'output on every exit (LZB.*.prefix / mono, DS.step.prefix, PM.mono, AB.reset.prefix), success implies output == spec output, all of it '
+            'handed to the sink with write_all and the sink flushed (LZB.finish.all, LD/L2/API .flushed); an Err of the sink or source is never '
+            'turned into Ok because Ok carries the exact-output postcondition. Encoders (LZMA2, XZ): Ok => the sink received exactly the encoding '
+            '(for sinks that accept only part of each write, through the write_all contract), counters count bytes actually accepted '
+            '(CountWrite/CrcDigestWrite), output only grows. Defect D4 (StreamFlags::serialize used write, not write_all) was found and fixed. '
+            'NOT COVERED: lzma_compress (dumbencoder / RangeEncoder not under contract); the prefix-on-error statement is proved per window '
+            'operation and loop, not restated on the top-level decompress functions (finish() consumes the window on its error path).',
+            'Verus contracts over an under-specified (failing, short-writing) sink and source model', '5 C12'),
+    'C04': (True,
+            'Unbounded deductive proof (Verus) for lzma2_compress and xz_compress: for every input byte string and every reader fragmentation '
+            '(reads may be short at any call), Ok => the bytes written are enc(data) and the SPEC decoders sp_lzma2 / sp_xz (the ones the real '
+            'decoders are verified against) decode enc(data) back to exactly data (round-trip lemma chain lemma_xz_roundtrip, l2_decodes_to), '
+            'including empty input and lengths on the 64 KiB chunk boundary ((n-1) as u16 proved exact), index / padding / backward-size '
+            'arithmetic, multibyte integers. NOT COVERED (honest gap): lzma_compress / lzma_compress_with_options -- the literal-only encoder '
+            'and the range encoder (carry propagation) are not under contract, so a defect there is not detected by this check; '
+            'interoperability with an independent decoder is represented by the format spec functions, not by running liblzma.',
+            'Verus encoder contracts + spec-level round-trip lemmas', '5 C04'),
 }
 NOT_YET = 'check not built yet (build in progress; see DESIGN.md section 8)'
 
